@@ -4,7 +4,7 @@
  * numbers are consecutive. */
 #include "../fw/explore.h"
 #include "../fw/hx.h"
-#include "/repo/include/bidib.h"
+#include "include/bidib.h"
 #include <stdio.h>
 #include <string.h>
 
